@@ -19,7 +19,7 @@
 From Coq Require Import NArith List Lia Permutation.
 From Coq Require Import Sorting.Sorted.
 From Mtbl Require Import model.Bytes model.Order model.Heap model.Merger spec.MergeSpec proofs.OrderProofs
-  proofs.HeapProofs proofs.HeapifyProofs proofs.MergerProofs proofs.MergerClosed proofs.MergerGen proofs.MergerNoMerge.
+  proofs.HeapProofs proofs.HeapifyProofs proofs.MergerProofs proofs.MergerClosed proofs.MergerAfterFail proofs.MergerGen proofs.MergerNoMerge.
 (* source ties: the statements of the C functions the model follows (gen/Ties.v is regenerated from /repo on every run) *)
 From Mtbl Require props.Ties_C04.
 Local Open Scope N_scope.
@@ -212,3 +212,45 @@ Theorem T04n_heapify : forall (A : Type) (cmp : A -> A -> comparison) (dflt : A)
   forall l, hok A cmp dflt (heapify A cmp dflt l) /\ Permutation (heapify A cmp dflt l) l.
 Proof. exact heapify_ok. Qed.
 Print Assumptions T04n_heapify.
+
+(* ---- after a failed merge (the last sentence of the property, and what the caller gets if it goes on) -------------
+   "If the merge function reports failure, the call that would have produced that key returns failure" is the None
+   case of T04_next_call.  The C iterator may be used further; T04f says what state the failed call leaves and that,
+   over ANY number of calls with ANY number of failures in between, every entry delivered is a fold over values the
+   sources hold for its key, different deliveries using DISJOINT values (each value used at most once): no entry is
+   made up, none is delivered twice.  (Found missing by the seeded change C04-13: a redundant-looking reset of the
+   pending flag removed - the call after a failure then delivered an empty key that no source holds.) *)
+Theorem T04f_failure_state : forall (mf : bytes -> bytes -> bytes -> option bytes) it it', api it ->
+  merger_next (Some mf) None it = (it', None) -> remaining it <> [] ->
+  exists k first rest v0 others,
+    Permutation ((k, first) :: map (pair k) rest ++ (k, v0) :: others) (remaining it) /\
+    (forall x, In x others -> bcmp k (fst x) <> Gt) /\
+    fold_merge mf k first (rest ++ [v0]) = None /\
+    Permutation (remaining it') ((k, v0) :: others) /\
+    api (clear it') /\
+    map sc_es (mi_srcs it') = map sc_es (mi_srcs it) /\
+    mi_pending it' = true /\ mi_cur_key it' = k /\ mi_finished it' = false /\ mi_entries it' = mi_entries it /\
+    fold_merge mf k first rest = Some (mi_cur_val it') /\ mf k (mi_cur_val it') v0 = None /\
+    exists e t, mi_heap it' = e :: t /\ he_key e = k /\ he_val e = v0 /\ he_fin e = false.
+Proof. exact merger_next_failure_state. Qed.
+Print Assumptions T04f_failure_state.
+
+Theorem T04f_next_ignores_stale_fields : forall mfo ds it, mi_finished it = false ->
+  merger_next mfo ds it =
+  merger_next mfo ds (mkmi (mi_srcs it) (mi_heap it) (mi_entries it) [] [] (mi_finished it) false).
+Proof. exact merger_next_ignores_pending. Qed.
+Print Assumptions T04f_next_ignores_stale_fields.
+
+Theorem T04f_any_history : forall (mf : bytes -> bytes -> bytes -> option bytes) n it, apic it ->
+  exists groups lost,
+    Forall2 (group_ok mf) (somes (mruns mf n it)) groups /\
+    Permutation (concat (map gentries groups) ++ lost ++ remaining (mrun_end mf n it)) (remaining it) /\
+    apic (mrun_end mf n it) /\ map sc_es (mi_srcs (mrun_end mf n it)) = map sc_es (mi_srcs it).
+Proof. exact merger_runs_exact. Qed.
+Print Assumptions T04f_any_history.
+
+Theorem T04f_delivered_entries_come_from_sources : forall (mf : bytes -> bytes -> bytes -> option bytes) n it, api it ->
+  forall k v, In (Some (k, v)) (mruns mf n it) ->
+  exists first rest, (forall x, In x (first :: rest) -> In (k, x) (remaining it)) /\ fold_merge mf k first rest = Some v.
+Proof. exact merger_after_failure_sound. Qed.
+Print Assumptions T04f_delivered_entries_come_from_sources.
